@@ -19,6 +19,73 @@ let dump (g : gst) =
       Buffer.add_string b "]") s.rds;
   Buffer.contents b
 
+
+(* ---------------------------------------------------------------- ChanSync mode (same input as harness/h_chansync.c) *)
+let dump_chan (s : chan) =
+  let b = Buffer.create 64 in
+  Buffer.add_string b (Printf.sprintf " | S %d %d %d %d %d %d" (int_of_z s.head) (int_of_z s.high) (int_of_z s.cyc)
+                         (int_of_z s.mapped) (if s.accepting then 1 else 0) (List.length s.rds));
+  List.iter (fun r ->
+      Buffer.add_string b (Printf.sprintf " [%d %d %d %d" (int_of_z r.hpos) (int_of_z r.hcyc) (if r.rmapped then 1 else 0) (int_of_z r.rstatus));
+      if r.rmapped then Buffer.add_string b (Printf.sprintf " %d %d" (int_of_z r.rpos) (int_of_z r.rcyc));
+      Buffer.add_string b "]") s.rds;
+  Buffer.contents b
+
+let parse_op (str : string) : op option =
+  match String.split_on_char ' ' (String.trim str) |> List.filter (fun x -> x <> "") with
+  | ["w"; n] -> Some (OWriteMap (z_of_int (int_of_string n)))
+  | ["c"] -> Some OCommit
+  | ["a"] -> Some OAbort
+  | ["acc"; b] -> Some (OAccept (int_of_string b <> 0))
+  | ["r"; i] -> Some (OReadMap (nat_of_int (int_of_string i)))
+  | ["u"; i; k] -> Some (OReadUnmap (nat_of_int (int_of_string i), z_of_int (int_of_string k)))
+  | _ -> None
+
+let sync_mode (first : string) =
+  let cap = ref 8 and nreaders = ref 0 and scripts = ref [] and sched = ref [] and spurious = ref false
+  and locked = ref true in
+  let handle line =
+    let line = String.trim line in
+    let w = String.split_on_char ' ' line |> List.filter (fun x -> x <> "") in
+    match w with
+    | ["CAP"; c] -> cap := int_of_string c
+    | ["READERS"; k] -> nreaders := int_of_string k
+    | ["SPURIOUS"; k] -> spurious := (int_of_string k <> 0)
+    | ["ACCEPT_LOCKED"; k] -> locked := (int_of_string k <> 0)
+    | "SCHED" :: rest -> sched := List.map int_of_string rest
+    | "T" :: _ ->
+      let body = String.sub line 1 (String.length line - 1) in
+      let ops = String.split_on_char ';' body |> List.filter_map parse_op in
+      scripts := !scripts @ [ops]
+    | _ -> () in
+  handle first;
+  (try while true do handle (input_line stdin) done with End_of_file -> ());
+  let s = ref (sinit (z_of_int !cap) (nat_of_int !nreaders) !scripts) in
+  let kname = function KCreate -> "create" | KDev -> "dev" | KLock -> "lock" | KPrewait -> "prewait" | KWait -> "wait" | KExit -> "exit" in
+  let stop = ref false in
+  List.iter (fun tid ->
+      if tid > 0 && not !stop then begin
+        match sstep !locked !spurious !s (nat_of_int (tid - 1)) with
+        | None -> Printf.printf "MODEL-DISABLED %d\n" tid; stop := true
+        | Some (s', l) ->
+          s := s';
+          Printf.printf "S %d %s\n" tid (kname l.lkind);
+          (match l.lres with
+           | None -> ()
+           | Some r ->
+             let txt = match r with
+               | ResW WTooBig -> "W toobig" | ResW WRefused -> "W refused" | ResW WBlocked -> "W blocked"
+               | ResW (WRegion b) -> Printf.sprintf "W region %d" (int_of_z b)
+               | ResUnit _ -> "U"
+               | ResR rr -> if int_of_z rr.rlen > 0 then Printf.sprintf "R %d %d" (int_of_z rr.roff) (int_of_z rr.rlen) else "R - 0" in
+             Printf.printf "E %d %s%s\n" tid txt (dump_chan s'.ch))
+      end) !sched;
+  let n = List.length !s.thrs in
+  let en = List.filter (fun t -> enabledb !locked false !s (nat_of_int t)) (List.init n (fun i -> i)) in
+  if all_done !s then print_string "END\n"
+  else if en = [] then print_string "DEADLOCK\n"
+  else print_string "UNFINISHED\n"
+
 let () =
   let g = ref (ginit (z_of_int 1)) in
   (try
@@ -26,6 +93,7 @@ let () =
        let line = input_line stdin in
        let w = String.split_on_char ' ' (String.trim line) in
        match w with
+       | "CAP" :: _ -> sync_mode line; raise End_of_file
        | ["new"; c] -> g := ginit (z_of_int (int_of_string c)); Printf.printf "NEW %s\n" c
        | [] | [""] -> ()
        | _ ->
